@@ -219,4 +219,54 @@ Fixpoint timed_run (stale early : bool) (ht : Z) (now : Z) (ts : tst) (steps : l
       end
   end.
 
+(* ---- the wait path: tickit_term_input_wait_msec(m) during which nothing arrives.  select is
+   given min(m, what is left to the deadline, in milliseconds rounded up) -- m = -1: no limit of
+   the caller's -- and returns 0 when that time has passed.  Repaired: the partial sequence is
+   force-interpreted only if ITS deadline has passed by then (outside this model: None);
+   otherwise the wait returns with the tokenizer and the deadline untouched.
+   [force_caller] = true is the pinned code: timedout() whenever select returns 0, also when
+   it was the caller's shorter time-out that expired.  Result: state and clock after the wait. *)
+Definition wait_left (now : Z) (ts : tst) : Z :=
+  match t_deadline ts with None => -1 | Some d => if now <? d then (d - now + 999) / 1000 else 0 end.
+
+Definition twait (force_caller : bool) (m : Z) (now : Z) (ts : tst) : option (tst * Z) :=
+  let left := wait_left now ts in
+  let eff := if (-1 <? left) && ((m =? -1) || (left <? m)) then left else m in
+  if eff <? 0 then None
+  else
+    let now' := now + eff * 1000 in
+    match t_deadline ts with
+    | None => Some (ts, now')
+    | Some d => if force_caller || (d <=? now') then None else Some (ts, now')
+    end.
+
+Fixpoint twaits (force_caller : bool) (ms : list Z) (now : Z) (ts : tst) : option (tst * Z) :=
+  match ms with
+  | [] => Some (ts, now)
+  | m :: r => match twait force_caller m now ts with Some (ts1, now1) => twaits force_caller r now1 ts1 | None => None end
+  end.
+
+(* chunks, each followed by waits of the caller that time out *)
+Fixpoint wtimed_run (force_caller : bool) (ht : Z) (now : Z) (ts : tst) (steps : list (list Z * list Z))
+  : option (list event * tst) :=
+  match steps with
+  | [] => Some ([], ts)
+  | (c, ws) :: r =>
+      match tpush false false ht now ts c with
+      | None => None
+      | Some (evs, ts1, now1) =>
+          match twaits force_caller ws now1 ts1 with
+          | None => None
+          | Some (ts2, now2) =>
+              match wtimed_run force_caller ht now2 ts2 r with
+              | None => None
+              | Some (evs2, ts3) => Some (evs ++ evs2, ts3)
+              end
+          end
+      end
+  end.
+
+(* tickit_term_input_wait_tv: the time-out in milliseconds; pinned: seconds added unscaled *)
+Definition wait_tv_msec (pinned : bool) (sec usec : Z) : Z := (if pinned then sec else sec * 1000) + usec / 1000.
+
 End WithTok.
